@@ -327,24 +327,17 @@ impl<E: Effect, R: CommandReceiver<E>, S: EventSender<E>> Worker<E, R, S> {
                 captures,
                 argument,
             } => {
-                // Extract heap data from all captures and argument
-                let mut all_heap_data = Vec::new();
-                let mut extracted_captures = Vec::new();
-
-                for capture in captures {
-                    let (extracted, mut heap) = self
-                        .executor
-                        .extract_heap_data(&capture)
-                        .map_err(|e| EnvironmentError::HeapData(format!("{:?}", e)))?;
-                    extracted_captures.push(extracted);
-                    all_heap_data.append(&mut heap);
-                }
-
-                let (extracted_argument, mut arg_heap) = self
+                // Extract heap data from all captures and the argument together: they travel with
+                // one heap vector, so their heap indices must live in one index space
+                let mut values: Vec<&Value> = captures.iter().collect();
+                values.push(&argument);
+                let (mut extracted_captures, all_heap_data) = self
                     .executor
-                    .extract_heap_data(&argument)
+                    .extract_heap_data_many(&values)
                     .map_err(|e| EnvironmentError::HeapData(format!("{:?}", e)))?;
-                all_heap_data.append(&mut arg_heap);
+                let extracted_argument = extracted_captures.pop().ok_or_else(|| {
+                    EnvironmentError::HeapData("No argument extracted".to_string())
+                })?;
 
                 self.sender.send(Event::SpawnAction {
                     caller,
